@@ -28,7 +28,39 @@ class HarnessAlgorithmError(Exception):
   """A bare Exception subclass raised by a misbehaving algorithm."""
 
 
-def make_exception(name):
+def message_text(spec):
+  """Text of an algorithm failure: what real algorithms put in exceptions (arrays, paths, non-ASCII)."""
+  if not spec:
+    return None
+  k = spec.get('kind')
+  if k == 'empty':
+    return ''
+  if k == 'multiline':
+    return 'algorithm failed:\n  File "x.py", line 3\n\tvalue = {"a": [1, 2]}\r\n%s %d' % ('%', 100)
+  if k == 'nonascii':
+    return 'алгоритм: ошибка é 日本語 😀 ' + 'ß' * int(spec.get('n', 3))
+  if k == 'long':
+    return 'algorithm: array([' + '0.12345678, ' * (int(spec.get('n', 4000)) // 12) + '])'
+  if k == 'long-nonascii':
+    # multi-byte characters everywhere: any byte-based cut lands inside a character for most pads
+    return 'x' * int(spec.get('pad', 0)) + '日' * (int(spec.get('n', 4500)) // 3)
+  raise ValueError(k)
+
+
+def make_exception(name, text=None):
+  e = _make_exception(name)
+  if text is None:
+    return e
+  if name == 'UnicodeDecodeError':
+    return UnicodeDecodeError('utf-8', b'\xff', 0, 1, text)
+  if name == 'RpcError':
+    e.set_details(text)
+    e.args = (text,)
+    return e
+  return type(e)(text)
+
+
+def _make_exception(name):
   if name == 'ValueError':
     return ValueError('algorithm: bad value')
   if name == 'KeyError':
@@ -78,19 +110,21 @@ EXCEPTION_TYPES = ['ValueError', 'KeyError', 'RuntimeError', 'ZeroDivisionError'
 class SequencePolicy(pythia.Policy):
   """x_k = param_values(space, k); k persisted in study metadata."""
 
-  def __init__(self, supporter, space, log=None):
+  def __init__(self, supporter, space, log=None, over=0):
     self._supporter = supporter
     self._space = space
     self._log = log if log is not None else []
+    self._over = over  # always delivers this many more suggestions than asked for
 
   def suggest(self, request):
     md = request.study_config.metadata.ns(SEQ_NS)
     k = int(md.get('n', default='0'))
     out = []
-    for i in range(request.count):
+    count = request.count + self._over
+    for i in range(count):
       out.append(vz.TrialSuggestion(O.param_values(self._space, k + i)))
     delta = vz.MetadataDelta()
-    delta.on_study.ns(SEQ_NS)['n'] = str(k + request.count)
+    delta.on_study.ns(SEQ_NS)['n'] = str(k + count)
     self._log.append(('suggest', k, request.count))
     return pythia.SuggestDecision(out, metadata=delta)
 
@@ -103,12 +137,13 @@ class SequencePolicy(pythia.Policy):
 
 class SequenceFactory(pythia.PolicyFactory):
 
-  def __init__(self, space):
+  def __init__(self, space, over=0):
     self.space = space
     self.log = []
+    self.over = over
 
   def __call__(self, problem_statement, algorithm, policy_supporter, study_name):
-    return SequencePolicy(policy_supporter, self.space, self.log)
+    return SequencePolicy(policy_supporter, self.space, self.log, over=self.over)
 
 
 class _FaultyPolicy(pythia.Policy):
@@ -134,7 +169,7 @@ class _FaultyPolicy(pythia.Policy):
     kind = fault['kind']
     f.fired[f'{kind}@suggest'] = f.fired.get(f'{kind}@suggest', 0) + 1
     if kind.startswith('raise:'):
-      raise make_exception(kind.split(':', 1)[1])
+      raise make_exception(kind.split(':', 1)[1], message_text(fault.get('msg')))
     if kind.startswith('deliver:'):
       d = kind.split(':', 1)[1]
       want = 0 if d == '0' else max(0, request.count + int(d))
@@ -162,7 +197,7 @@ class _FaultyPolicy(pythia.Policy):
     kind = fault['kind']
     f.fired[f'{kind}@early_stop'] = f.fired.get(f'{kind}@early_stop', 0) + 1
     if kind.startswith('raise:'):
-      raise make_exception(kind.split(':', 1)[1])
+      raise make_exception(kind.split(':', 1)[1], message_text(fault.get('msg')))
     if kind == 'bad-delta':
       dec = self._base.early_stop(request)
       dec.metadata.on_trials[int(fault.get('trial', 987))].ns('verif_bad')['k'] = 'v'
@@ -202,7 +237,7 @@ class FaultyFactory(pythia.PolicyFactory):
 def base_factory(cfg):
   """Factory for cfg['algorithm']: SEQUENCE or a DefaultPolicyFactory name."""
   if cfg.get('algorithm') == 'SEQUENCE':
-    return SequenceFactory(cfg.get('space', 'int10'))
+    return SequenceFactory(cfg.get('space', 'int10'), over=cfg.get('over', 0))
   return service_policy_factory.DefaultPolicyFactory()
 
 
